@@ -125,7 +125,11 @@ func (s *SenderInterceptor) BindRemoteStream(
 			sequenceNumber: header.SequenceNumber,
 			ecn:            0, // ECN is not supported (yet).
 		}
-		s.packetChan <- p
+		select {
+		case s.packetChan <- p:
+		case <-s.close:
+			// closed: nobody records any more, pass the packet through
+		}
 
 		return i, attr, nil
 	})
